@@ -139,7 +139,8 @@ T* Cabinet<T>::free(const Token &token)
 template <typename T>
 void Cabinet<T>::clear()
 {
-    last_id_ = 0;
+    //! last_id_ is kept: ids must never be reissued, otherwise a token handed out
+    //! before clear() would match the first object allocated after it
     cells_.clear();
     first_free_ = std::numeric_limits<Pos>::max();
     count_ = 0;
